@@ -38,7 +38,9 @@ def judge(agents, n, task, calls_per_agent=None):
     if len(agents) != n:
         out.append(('agents-lost-or-duplicated', f"{len(agents)} agents returned for {n} pooled evaluations"))
     pos = [tuple(map(repr, a.position)) for a in agents]
-    if len(set(pos)) != len(pos):
+    # "pairwise distinct" is a statement about independently drawn points of a space with a continuous coordinate; on a
+    # purely discrete space (24 permutations, 16 bit strings) equal draws are ordinary
+    if any(sp[0] == 'c' for sp in space) and len(set(pos)) != len(pos):
         out.append(('initial-agents-not-pairwise-distinct', f"{len(pos) - len(set(pos))} duplicated positions among {len(pos)}"))
     for a in agents:
         pr = tasks.position_problem(space, a.position)
